@@ -18,9 +18,10 @@ sca macalc  <ins> <bases>                          -> v,…            (Marginal
 sca sacalc  <L|R> <ins> <bases>                    -> v,…            (SingleAmountTaxScale.calc)
 sca lacalc  <ins> <bases>                          -> v,… | ERR      (LinearAverageRateTaxScale.calc)
 sca seq     <ins>;<ins>;… <bases>                  -> <scale>|v,…    (receiver.add_tax_scale(each))
-sca cts     <ins|none> <ins|x>;… <bases>           -> <scale>|v,… | none   (combine_tax_scales)
+sca cts     <ins|none> <ins|x>;…|. <bases>         -> <scale>|v,… | none   (combine_tax_scales; `x` = a child
+                                                      that is not a scale, `.` = empty node)
 sca inverse <ins> <bases>                          -> <scale>|v,… | ERR   (v = calc inv (x - calc s x))
-sca mult    <k> <dec|-> <ins> <bases>              -> <scale>|v,…    (v = calc at k*x)
+sca mult    <k> <dec|-> <ins> <bases>              -> <scale>|v,…    (multiply_thresholds; v = calc at k*x)
 sca mulr    <k> <ins> <bases>                      -> <scale>|v,…
 sca sts     <k> <ins> <bases>                      -> <scale>|v,…    (scale_tax_scales; v at k*x)
 sca toavg   <ins>                                  -> <avg scale> | ERR   (`inf:r` = the Inf bracket)
